@@ -37,6 +37,7 @@ def zoo():
     z["neg_of_enum"] = P([Println(Un("-", Enum("Color.Blue")))])
     z["local_of_other_function"] = Program([families.T, Func("f", [], "int", [Let("secret", "int", I(5)), Ret(V("secret"))]),
                                             Func("main", [], "int", [Println(V("secret")), Ret(I(0))])])
+    z["global_named_like_libc_function"] = Program([families.T, Func("main", [], "int", [Println(V("log")), Ret(I(0))])], globals_=[("log", "int", False, I(3))])
     z["string_less_than"] = P([Println(Bin("<", S("a"), S("b")))])
     z["deep_recursion_1000"] = P([Println(Call("down", I(1000)))], [Func("down", [("n", "int")], "int", [If(Bin("<=", V("n"), I(0)), [Ret(I(0))], []), Ret(Bin("+", I(1), Call("down", Bin("-", V("n"), I(1)))))])])
     z["deep_recursion_5000"] = P([Println(Call("down", I(5000)))], [Func("down", [("n", "int")], "int", [If(Bin("<=", V("n"), I(0)), [Ret(I(0))], []), Ret(Bin("+", I(1), Call("down", Bin("-", V("n"), I(1)))))])])
